@@ -176,6 +176,7 @@ def burst(arg):
             forks.append(world.now)
             born[vp.pid] = len(forks)
         vproc.launcher = launch
+        vos.deliver_signal = vproc.deliver_signal
         try:
             pool = bp.Pool(size, threads=False, context=vproc.VPoolContext(),
                            max_restarts=3, max_restart_freq=1)
